@@ -461,10 +461,87 @@ func c18RunOps(r *Run, ops []map[string]interface{}) {
 			r.Emit(op, res)
 		case "batch":
 			r.Emit(op, c18Batch(op))
+		case "bulkidx":
+			r.Emit(op, c18BulkIdx(op))
 		default:
 			r.Emit(op, map[string]interface{}{"bad": "unknown op"})
 		}
 	}
+}
+
+// c18BulkIdx: kvgraph.BulkAdd against one-by-one AddVertex on a store with a USER index
+// (AddVertexIndex label field): an element whose indexed field holds a value that is no index term
+// (bool, list, object) is refused by both, and takes nothing else with it.
+//   {"op":"bulkidx","drv":"badger"|"bolt"|"level","index":[label,field],"verts":[{gid,label,data}…]}
+//   → {"bulk":[ids stored by the bulk load],"single":[ids stored one by one]}   (sorted)
+func c18BulkIdx(op map[string]interface{}) (obs map[string]interface{}) {
+	defer func() {
+		if p := recover(); p != nil {
+			obs = map[string]interface{}{"panic": fmt.Sprint(p)}
+		}
+	}()
+	drv, _ := op["drv"].(string)
+	e, err := NewEng(drv)
+	if err != nil {
+		return map[string]interface{}{"bad": err.Error()}
+	}
+	defer e.Destroy()
+	idx := strList(op["index"])
+	verts, _ := op["verts"].([]interface{})
+	ids := []string{}
+	mk := func() []*gdbi.GraphElement {
+		out := []*gdbi.GraphElement{}
+		for _, v := range verts {
+			m := v.(map[string]interface{})
+			pv, err := VertexFromJSON(map[string]interface{}{"gid": m["gid"], "label": m["label"], "data": Untag(m["data"])})
+			if err != nil {
+				panic(err)
+			}
+			out = append(out, &gdbi.GraphElement{Graph: "g", Vertex: gdbi.NewElementFromVertex(pv)})
+		}
+		return out
+	}
+	for _, v := range verts {
+		ids = append(ids, v.(map[string]interface{})["gid"].(string))
+	}
+	stored := func(gname string) []interface{} {
+		g, _ := e.DB.Graph(gname)
+		out := []string{}
+		seen := map[string]bool{}
+		for _, id := range ids {
+			if !seen[id] && g.GetVertex(id, true) != nil {
+				out = append(out, id)
+			}
+			seen[id] = true
+		}
+		sort.Strings(out)
+		l := []interface{}{}
+		for _, x := range out {
+			l = append(l, x)
+		}
+		return l
+	}
+	for _, gname := range []string{"gb", "gs"} {
+		if err := e.DB.AddGraph(gname); err != nil {
+			return map[string]interface{}{"bad": err.Error()}
+		}
+		g, _ := e.DB.Graph(gname)
+		if len(idx) == 2 {
+			g.AddVertexIndex(idx[0], idx[1])
+		}
+	}
+	gb, _ := e.DB.Graph("gb")
+	ch := make(chan *gdbi.GraphElement, len(verts)+1)
+	for _, el := range mk() {
+		ch <- el
+	}
+	close(ch)
+	gb.BulkAdd(ch)
+	gs, _ := e.DB.Graph("gs")
+	for _, el := range mk() {
+		gs.AddVertex([]*gdbi.Vertex{el.Vertex})
+	}
+	return map[string]interface{}{"bulk": stored("gb"), "single": stored("gs")}
 }
 
 // ---------- generators ----------
@@ -804,6 +881,29 @@ func c18Generate(r *Run) {
 		}
 		for i := 0; i < nbatch; i++ {
 			add(g.batchCase(k, rnd.Intn(3*base+5)))
+		}
+	}
+	// bulk against one-by-one on a store with a user index: elements the index cannot take
+	{
+		vals := []interface{}{1.0, "s", true, 2.5, []interface{}{1.0}, map[string]interface{}{"k": 1.0}, nil, "t", false, 0.0}
+		for _, drv := range []string{"badger", "bolt", "level"} {
+			for round := 0; round < 4; round++ {
+				verts := []interface{}{}
+				n := 3 + rnd.Intn(6)
+				for i := 0; i < n; i++ {
+					data := map[string]interface{}{"y": float64(i)}
+					if v := vals[rnd.Intn(len(vals))]; v != nil {
+						data["x"] = v
+					}
+					lab := "L"
+					if rnd.Intn(4) == 0 {
+						lab = "M" // not covered by the index: any value goes
+					}
+					verts = append(verts, map[string]interface{}{"gid": fmt.Sprintf("u%d", i), "label": lab, "data": Tag(data)})
+				}
+				ops = append(ops, map[string]interface{}{"op": "bulkidx", "drv": drv, "index": c18Strs("L", "x"), "verts": verts})
+				r.Count("bulkidx:" + drv)
+			}
 		}
 	}
 	r.Dist["cases"] = ncase
